@@ -641,7 +641,17 @@ def _check_find_config(ctx: Ctx) -> None:
         for sc in scen:
             def says_pyproject(a: ast.AST) -> bool | None:
                 """True / False if the atom `a` (taken as true) says the name is / is not pyproject.toml"""
-                if isinstance(a, ast.Compare) and len(a.ops) == 1 and "pyproject.toml" in ast.unparse(a):
+                def _mentions_pyproject(e_: ast.AST) -> bool:
+                    if "pyproject.toml" in ast.unparse(e_):
+                        return True
+                    for x_ in ast.walk(e_):  # ... or through a module-level name for it
+                        if isinstance(x_, ast.Name):
+                            r_ = repo.lookup(x_.id, fi.module, fi)
+                            if isinstance(r_, ConstInfo) and isinstance(r_.value, ast.Constant) and r_.value.value == "pyproject.toml":
+                                return True
+                    return False
+
+                if isinstance(a, ast.Compare) and len(a.ops) == 1 and _mentions_pyproject(a):
                     if isinstance(a.ops[0], ast.Eq):
                         return True
                     if isinstance(a.ops[0], ast.NotEq):
